@@ -33,6 +33,8 @@ def scan_form(year, form_name, gates):
     cat = linevc.Cat.get(year)
     form = cat.forms[form_name]
     gset = {(g['input'], g['polarity']) for g in gates}
+    only = {(g['input'], g['polarity']): set(g['readers']) for g in gates if g.get('readers')}     # gate only where these lines consult it
+    conditional = {(g['input'], g['polarity']) for g in gates if g.get('conditional')}
     res = {'form': form_name, 'ni': {}, 'leaks': [], 'bool_inputs_read': set(), 'errors': []}
     required = {f.name() for f in form.required_fields()}
     for fld in form.fields():
@@ -61,7 +63,28 @@ def scan_form(year, form_name, gates):
             for pol in (True, False):
                 if (name, pol) not in gset:
                     continue
+                if (name, pol) in only and fld.name() not in only[(name, pol)]:
+                    continue
                 lit = t if pol else z3.Not(t)
+                if (name, pol) in conditional:
+                    # conditional gate: only the paths that actually consult the input with that answer count
+                    def consults(p):
+                        hyp = p.conds + [f for f in p.facts if not z3.is_quantifier(f)]
+                        return any(sh == name for acc, sh, _ in getattr(p, 'readlog', []) if acc == 'i') and \
+                            smt.satisfiable(hyp + [lit]) == z3.sat and smt.satisfiable(hyp + [z3.Not(lit)]) != z3.sat
+                    cons = [p for p in paths if consults(p)]
+                    if cons and all(is_ni(p) for p in cons):
+                        res.setdefault('cni', {}).setdefault(f'{name}={pol}', []).append((fld.name(), fld.name() in required))
+                    for p in cons:
+                        if not is_ni(p):
+                            model, st = replay.solve_model(p, extra=[lit])
+                            wit = None
+                            if model is not None:
+                                inputs, values = replay.concretise(model, year)
+                                wit = {'inputs': {k: repr(v) for k, v in inputs.items()}, 'values': {k: repr(v) for k, v in values.items()}}
+                            res['leaks'].append({'gate': f'{name}={pol}', 'line': fld.name(), 'required': fld.name() in required, 'outcome': str(p.outcome)[:100], 'witness': wit, 'path': p.sig()})
+                            break
+                    continue
                 feas = [p for p in paths if smt.satisfiable(p.conds + [f for f in p.facts if not z3.is_quantifier(f)] + [lit]) == z3.sat]
                 if feas and all(is_ni(p) for p in feas):
                     res['ni'].setdefault(f'{name}={pol}', []).append((fld.name(), fld.name() in required))
@@ -187,6 +210,8 @@ def run(tier, seed, t0):
         for r in results:
             for g, lines in r['ni'].items():
                 ni.setdefault(g, []).extend([(l, req, r['form']) for l, req in lines])
+            for g, lines in r.get('cni', {}).items():
+                ni.setdefault(g, []).extend([(l, req, r['form']) for l, req in lines])
         leaks = {}
         for r in results:
             for lk in r['leaks']:
@@ -219,11 +244,12 @@ def run(tier, seed, t0):
                               replay_spec={'kind': 'line', 'year': year, 'line': lk['line'] if lk else None, 'inputs': (wit or {}).get('inputs', {}), 'values': (wit or {}).get('values', {})}))
                 continue
             obs.append(Ob(id=oid + '/gate-raises', backend='symexec+z3', function=g['input'], time_s=time.time() - t1,
-                          clause=f'gate {key}: every path of {[l for l, _, _ in nilines][:4]} compatible with the affirmative answer ends in FieldNotImplemented',
+                          clause=(f'conditional gate {key}: every path of {[l for l, _, _ in nilines][:4]} that consults it with that answer ends in FieldNotImplemented' if g.get('conditional') else
+                                  f'gate {key}: every path of {[l for l, _, _ in nilines][:4]} compatible with the affirmative answer ends in FieldNotImplemented'),
                           vc=f'{len(nilines)} line(s)'))
             for lk in leaks.get(key, []):
                 loid = f'{oid}/reader={lk["line"]}'
-                same_form = [l for l, req, frm in nilines if frm == lk['form'] and req]
+                same_form = [] if g.get('conditional') else [l for l, req, frm in nilines if frm == lk['form'] and req]
                 comp = companions.get(f'{g["input"]}@{lk["line"]}') or companions.get(g['input'])
                 other = [l for l, req, frm in nilines if comp and l == comp['line']]
                 if other and comp.get('chain'):
